@@ -35,6 +35,23 @@ func (env *ExprEnv) callExpr(e *ast.CallExpr) Val {
 		}
 		return env.eval(e.Args[i])
 	}
+	// call indices are mathematical integers even when Go integers are bit-vectors
+	switch fname {
+	case "ret", "retb", "reti", "arg", "argb", "tickof":
+		if t.bv {
+			saved, savedG := t.bv, gBV
+			t.bv, gBV = false, false
+			ix := env.eval(e.Args[1])
+			t.bv, gBV = saved, savedG
+			orig := arg
+			arg = func(i int) Val {
+				if i == 1 {
+					return ix
+				}
+				return orig(i)
+			}
+		}
+	}
 	switch fname {
 	case "imp_":
 		a, b := arg(0), arg(1)
@@ -296,6 +313,12 @@ func (env *ExprEnv) callExpr(e *ast.CallExpr) Val {
 		}
 		f := t.declareFun("ufb:"+nm, sorts, "Bool")
 		return boolVal(sApp(f, as...))
+	case "tof32": // int -> float32 (round to nearest even), bv mode
+		x := arg(0)
+		return Val{K: KF32, S: "((_ to_fp 8 24) RNE " + x.S + ")", T: types.Typ[types.Float32]}
+	case "f32toint": // float32 -> int64 (truncation), bv mode
+		x := arg(0)
+		return Val{K: KInt, S: "((_ fp.to_sbv 64) RTZ " + x.S + ")", T: types.Typ[types.Int64]}
 	case "isint": // real value is integral
 		x := arg(0)
 		return boolVal("(is_int " + x.S + ")")
